@@ -28,7 +28,8 @@ type Scenario struct {
 	Sites       []string     `json:"sites,omitempty"` // enabled yield sites (exact names or "prefix.*")
 	Schedule    []int        `json:"schedule,omitempty"`
 
-	Inner bool `json:"inner,omitempty"` // build a second router that handlers can mount ("mount" action)
+	SharedMW []string `json:"sharedMW,omitempty"` // a middleware list the application keeps in one slice (with spare capacity) and passes, unmodified, to several registrations
+	Inner    bool `json:"inner,omitempty"` // build a second router that handlers can mount ("mount" action)
 
 	// C14 component level
 	CacheCap int `json:"cacheCap,omitempty"`
